@@ -29,18 +29,20 @@ CLAIMS = {
              "and exercised by the real-thread linearizability oracle only; Compare = std::less<int> in the model.",
         ref="4/C13"),
     "C08": dict(
-        technique="Coq proof of an inductive invariant over all interleavings (N threads) of an access-level small-step model; step-level correspondence with the real lock under a deterministic atomic-access gate",
+        technique="Coq proof of an inductive invariant over all interleavings (N threads) of an access-level small-step model (spin_rw_mutex); step-level correspondence with the real lock under a deterministic atomic-access gate; real-thread exclusion / hand-off oracle for all eight mutex types",
         text="spin_rw_mutex: mutual exclusion (writer excludes writers and readers) and state-word consistency are proved for any number of threads, any scripts over all "
              "eight operations incl. upgrade/downgrade and any interleaving of the individual atomic accesses. The real spin_rw_mutex.h runs under a force-included "
-             "std::atomic prelude so that it executes exactly a given interleaving; its event trace (access kind, memory order, values, results) must equal the model's.",
-        note="SC only (memory orders are compared, not proved necessary). Not yet modelled: spin_mutex, queuing_mutex, queuing_rw_mutex, mutex/rw_mutex waiting, RTM variants; "
+             "std::atomic prelude so that it executes exactly a given interleaving; its event trace (access kind, memory order, values, results) must equal the model's. "
+             "All eight mutex types (spin, queuing, mutex, speculative; their rw variants): 2-8 real threads, each re-using ONE scoped_lock object on two mutexes, blocking and try acquisitions mixed, upgrade/downgrade: never a writer with another holder, no lost update, every acquirer served (watchdog).",
+        note="SC only (memory orders are compared, not proved necessary). Modelled: spin_rw_mutex only; spin_mutex, queuing_mutex, queuing_rw_mutex, mutex/rw_mutex waiting, RTM variants are oracle-only (mutex-mix); "
              "upgrade-truthfulness and no-lost-hand-off are checked by the harness oracle (critical-section bookkeeping, round-robin completion), not yet theorems.",
         ref="4/C08"),
     "C05": dict(
         technique="Coq proof (induction on a logarithmic fuel bound) that the simple_partitioner chunk tree tiles the range with the documented size bounds, for unbounded sizes; differential correspondence with the real parallel_for; tiling oracle on all partitioners",
         text="simple_chunks is proved for every begin<end and every grain (no size bound): termination, in-order contiguous tiling, non-empty chunks, non-divisible ranges never split, "
              "chunk sizes in [ceil(g/2), g]. The model's leaves are compared exactly with the chunks the real parallel_for(simple_partitioner) hands to the body, incl. sizes > 2^32 and 2^63. "
-             "All other partitioners / 2d / 3d / for_each / invoke are exercised by real-thread runs with the exactly-once/tiling predicate.",
+             "Strided form parallel_for(first,last,step,f): strided_loop_indices proves that the trip count / index formula visits exactly the progression below last, each index once; tied at the ends of int / unsigned / size_t / long long. "
+             "Proportional split: Flocq binary32 model evaluated inside Coq, tied for sizes up to 2^64-1. All other partitioners / 2d / 3d / for_each / invoke are exercised by real-thread runs with the exactly-once/tiling predicate.",
         note="Partial: auto/static/affinity partitioner state machines, the float proportional split and the nd ranges are not yet modelled in Coq (oracle-only).",
         ref="4/C05"),
     "C16": dict(
